@@ -103,6 +103,7 @@ type Violation struct {
 	Nondets []NondetRec
 	Events []Event
 	Budget int64
+	LoopBound int
 }
 
 func (m *Machine) site() string {
